@@ -5,6 +5,14 @@ HERE = os.path.dirname(os.path.abspath(__file__))
 VERIF = os.path.dirname(HERE)
 
 CLAIMED = {
+ "C01": ("proof", "Token-level whole-object theorem for the MsgPack archive (every saved tree is one complete value; every field saved under a key is what a load of that key returns, in any request order; closing leaves the reader behind the object) composed from C03/C05/C06/C07; CSV archive round trip (C09); text/number round trips (C11, C16); save->load round trips through all four real archives from memory and streams judged for equality.",
+         "PARTIAL: JSON/XML adapters and third-party codecs are exercised (round trips) but not modelled here; encodings/pretty-printing covered by C13/C08 ops; recorded findings: XML empty element, CSV empty array"),
+ "C02": ("proof", "Totality of every model function (no hang), progress/termination theorem of the chunked reader, iterator/position bounds, every failure a value of the error type; two resource findings stated as refutation theorems; structure-aware mutations of documents of all four archives and malformed converter inputs run under ASan+UBSan with time limits.",
+         "PARTIAL: RapidJSON/pugixml parsers are exercised, not proved; misaligned loads excluded from UBSan; recorded findings: header-driven pre-allocation, unbounded recursion, throwing destructor"),
+ "C17": ("proof", "For every class/validator subset/document/cap: ValidationException iff some validator fails; the report is exactly the failing fields with their messages in declaration order (cap 0), or the first n fields with the n-th cut at its first message (cap n); passing fields loaded; built-in validator semantics; default messages regenerated from the source.",
+         "Email/PhoneNumber exercised only; object state after an early (capped) throw not modelled"),
+ "C18": ("proof", "For all priors, estimates and item lists of every container kind: loading into a populated target equals loading into a fresh one whenever no element is skipped inside a reused slot (exact decidable exclusion, refutation witness for the unrestricted statement); map modes never add / never remove keys; optional/pointers independent of prior.",
+         "abstract array archive (estimate + per-item loaded flag); MsgPack and CSV executed; one recorded finding (stale value kept when an element is not loaded, by design per README)"),
  "C03": ("proof", "Unbounded theorems about the model of CMsgPackReadObjectScope: cursor invariant, cyclic key scan with wrap-around, every request history answered as the abstract finite map, destructor leaves the reader behind the object; real scopes driven with request histories from memory and streams and judged against an abstract data model.",
          "token-level reader abstraction (byte level: C07 model); JSON/XML/CSV lookups exercised only; one recorded finding (array scope left partly read)"),
  "C04": ("proof", "Theorems for all 64 integer type pairs and all values (exact or out_of_range, never wrapped), bool and float-source branches, ConvertByPolicy total case split; floating-point operations are a parameter with explicit laws; 8-bit sources exhaustive in the correspondence run.",
